@@ -48,6 +48,7 @@ META = {
 PENDING_FINDINGS = []
 
 PID = "C08"
+INTREE = {}          # group id -> (path of the file stdout is appended to, its content before the run)
 _LOCK = threading.Lock()
 MODES = {
     "heading": ["--heading", "-n"],
@@ -163,6 +164,9 @@ def materialise(scn, base):
         # many workers that have nothing to report while one has
         files = [("e%02d/%04d.txt" % (i % 40, i), "empty") for i in range(1500)]
         files.insert(rng.randrange(len(files)), ("e07/hit.txt", "tiny"))
+    elif scn.get("bigfiles"):
+        # thousands of files with long names under --files: far more paths than a pipe holds, for the runs whose reader is slow
+        files = [("dir-%02d-%s/file-%05d-%s.txt" % (i % 37, "p" * 40, i, "q" * 60), "empty") for i in range(scn["bigfiles"])]
     else:
         files = gen_tree(rng, scn["dense"], scn["tier"])
     root = os.path.join(base, "tree")
@@ -212,6 +216,15 @@ def materialise(scn, base):
                 extra.append((rel, "tiny"))
         files = files + extra
     scn["_kinds"] = {rel: kind for rel, kind in files}
+    if scn.get("delivery") == "intree":
+        # the file stdout is appended to lies inside the searched tree and holds matching lines: rg leaves the file its
+        # stdout points to alone, whichever worker comes across it, so it is not among the files with a block
+        sub = sorted({os.path.dirname(rel) for rel, _ in files if "/" in rel}) or ["zo"]
+        rel = rng.choice(sub) + "/zz-stdout.txt"
+        os.makedirs(os.path.join(root, os.path.dirname(rel)), exist_ok=True)
+        INTREE[scn["gid"]] = (rel, file_bytes(rng, "tiny") + b"foo needle stdout\n")
+        with open(os.path.join(root, rel), "wb") as f:
+            f.write(INTREE[scn["gid"]][1])
     return root, pre, [rel for rel, _ in files]
 
 
@@ -259,6 +272,8 @@ def make_scenarios(tier, seed):
             "sort_threads": [rng.randint(2, 16) for _ in range(nsort)],
             "roots": i % 5 == 4,
             "selfloop": i % 3 == 2 and i % 5 != 4 and i % 2 == 0,
+            # how stdout is delivered: None = a pipe read as fast as possible; "intree" = appended to a file inside the tree
+            "delivery": "intree" if i % 4 == 3 else None,
         })
     # groups with a single matching file among very many empty ones, many repetitions with many threads
     nrare = 140 if tier == "quick" else 600
@@ -266,13 +281,20 @@ def make_scenarios(tier, seed):
         scns.append({"gid": len(plan) + k, "seed": rng.randrange(1 << 30), "tier": tier, "mode": mode, "pattern": "many", "dense": False,
                      "pre": False, "ignores": False, "links": False, "rare": True, "roots": False,
                      "threads": [16, 8] * (nrare // 2), "cpus": [None] * nrare, "sort_threads": [4]})
+    # --files over thousands of files, read by a consumer that starts late (every run of the group)
+    nbig = 6 if tier == "quick" else 24
+    scns.append({"gid": len(plan) + 2, "seed": rng.randrange(1 << 30), "tier": tier, "mode": "files", "pattern": "many", "dense": False,
+                 "pre": False, "ignores": False, "links": False, "bigfiles": 6000, "roots": False, "delivery": "slow",
+                 "threads": ([16, 8, 4, 2, 12, 16] * 4)[:nbig], "cpus": [None] * nbig, "sort_threads": [4]})
     return scns
 
 
 # ---------------------------------------------------------------------------
 # running rg
 
-def run_rg(rg, args, cwd, cpus=None, timeout=120):
+def run_rg(rg, args, cwd, cpus=None, timeout=120, delivery=None):
+    """delivery: None = stdout is a pipe that is drained at once; ("slow", seconds) = a pipe whose reader starts late;
+    ("intree", rel, content) = stdout is appended to the file rel inside the tree (reset to content first)."""
     cmd = [rg] + args
     if cpus:
         # confine the run to a few CPUs: many threads on few cores forces preemption inside the print path
@@ -282,6 +304,30 @@ def run_rg(rg, args, cwd, cpus=None, timeout=120):
         chosen = [avail[(start + j) % len(avail)] for j in range(k)]
         cmd = ["taskset", "-c", ",".join(map(str, chosen))] + cmd
     try:
+        if delivery and delivery[0] == "intree":
+            target = os.path.join(cwd, delivery[1])
+            with open(target, "wb") as f:
+                f.write(delivery[2])
+            with open(target, "ab") as f:
+                p = subprocess.run(cmd, cwd=cwd, stdin=subprocess.DEVNULL, stdout=f, stderr=subprocess.PIPE,
+                                   timeout=timeout, env=rgrun.rg_env())
+            with open(target, "rb") as f:
+                data = f.read()
+            with open(target, "wb") as f:
+                f.write(delivery[2])
+            if not data.startswith(delivery[2]):
+                return (p.returncode, data, b"stdout file lost its previous content")
+            return (p.returncode, data[len(delivery[2]):], p.stderr)
+        if delivery and delivery[0] == "slow":
+            p = subprocess.Popen(cmd, cwd=cwd, stdin=subprocess.DEVNULL, stdout=subprocess.PIPE, stderr=subprocess.PIPE, env=rgrun.rg_env())
+            time.sleep(delivery[1])
+            try:
+                out, err = p.communicate(timeout=timeout)
+            except subprocess.TimeoutExpired:
+                p.kill()
+                p.communicate()
+                return (-9, b"", b"timeout")
+            return (p.returncode, out, err)
         p = subprocess.run(cmd, cwd=cwd, stdin=subprocess.DEVNULL, stdout=subprocess.PIPE, stderr=subprocess.PIPE,
                            timeout=timeout, env=rgrun.rg_env())
     except subprocess.TimeoutExpired:
@@ -302,33 +348,42 @@ def execute_group(scn, rg, only=None, repeat=1):
             args = args + ["--"] + sorted({rel.split("/")[0] for rel in files if "/" in rel and not rel.startswith(".")})
             files = [rel for rel in files if "/" in rel]
         res = {"files": files, "args": args, "blocks": [], "runs": [], "sortrefs": [], "sortruns": []}
+        whole = ("intree",) + INTREE[scn["gid"]] if scn.get("delivery") == "intree" else None     # delivery of every whole-tree run
         for rel in files:
             if scn.get("rare") and scn["_kinds"].get(rel) == "empty":
                 res["blocks"].append(b"")        # an empty file has an empty block in the modes of the rare groups
+                continue
+            if scn.get("bigfiles"):
+                res["blocks"].append(rel.encode() + b"\n")   # --files: the block of a file is its path (the -j1 run below must parse as such)
                 continue
             rc, out, err = run_rg(rg, ["-j1", "-g", "/" + rel] + args, root)
             if rc not in ((0, 1, 2) if scn.get("selfloop") else (0, 1)):
                 raise vlib.ToolError("single-file reference run failed rc=%d: %s" % (rc, err[-300:]))
             res["blocks"].append(out)
-        res["ref"] = run_rg(rg, ["-j1"] + args, root)[:2]
+        res["ref"] = run_rg(rg, ["-j1"] + args, root, delivery=whole)[:2]
         if res["ref"][0] not in ((0, 1, 2) if scn.get("selfloop") else (0, 1)):
             raise vlib.ToolError("the -j1 reference run of group %s failed rc=%d" % (scn["gid"], res["ref"][0]))
         for _ in range(repeat):
-            for n, cpus in zip(scn["threads"], scn["cpus"]):
+            for k, (n, cpus) in enumerate(zip(scn["threads"], scn["cpus"])):
                 if only and only != ("run", n):
                     continue
-                rc, out, err = run_rg(rg, ["-j%d" % n] + args, root, cpus=cpus)
+                how = whole
+                if scn.get("delivery") == "slow":
+                    how = ("slow", 0.3)
+                elif how is None and k % 7 == 3:
+                    how = ("slow", 0.05)
+                rc, out, err = run_rg(rg, ["-j%d" % n] + args, root, cpus=cpus, delivery=how)
                 if rc == -9:
                     raise vlib.ToolError("rg -j%d timed out in group %s" % (n, scn["gid"]))
                 res["runs"].append({"threads": n, "cpus": cpus, "rc": rc, "out": out})
         if only is None or only[0] == "sort":
             for _ in range(2):
-                res["sortrefs"].append(run_rg(rg, ["-j1", "--sort", "path"] + args, root)[:2])
+                res["sortrefs"].append(run_rg(rg, ["-j1", "--sort", "path"] + args, root, delivery=whole)[:2])
             for _ in range(repeat):
                 for n in scn["sort_threads"]:
                     if only and only != ("sort", n):
                         continue
-                    rc, out, err = run_rg(rg, ["-j%d" % n, "--sort", "path"] + args, root)
+                    rc, out, err = run_rg(rg, ["-j%d" % n, "--sort", "path"] + args, root, delivery=whole)
                     res["sortruns"].append({"threads": n, "rc": rc, "out": out})
         return res
     finally:
@@ -458,7 +513,7 @@ def _account(chk, recs, tag, stats, verdicts):
             continue
         if verdict not in VIOLATION_CLAUSES:
             raise vlib.ToolError("unknown verdict %r" % verdict)
-        sig = {"clause": verdict, "mode": scn["mode"], "threads": d["threads"]}
+        sig = {"clause": verdict, "mode": scn["mode"], "threads": d["threads"], "stdout": scn.get("delivery") or "pipe"}
         report(chk, sig, {"why": "TLC (OutputTrace) rejects the stdout of rg -j%d%s: %s at output line %d after %d blocks" % (
                               d["threads"], " --sort path" if d["kind"].startswith("sort") else "", verdict, v["pos"], len(v["order"])),
                           "scenario": scn, "kind": d["kind"], "threads": d["threads"], "cpus": d.get("cpus"),
